@@ -4,6 +4,7 @@
    floats are Base/PyFloat.v (CPython binary64 on SpecFloat). *)
 From Coq Require Import String.
 Require Import OV.Base.Bytes OV.Base.Py OV.Base.PyInt OV.Base.Str OV.Base.Regex OV.Base.PyFloat.
+Require Import OV.Model.C10_Regex.
 Require Import OV.Gen.C10_Units.
 Open Scope Z_scope.
 
@@ -64,15 +65,23 @@ Definition effective_base (unit_system : str) (base : option Z) (prefix : option
     end
   else base.
 
-(* return int(math.ceil(res)) if return_int else res *)
+(* if return_int: try: return int(math.ceil(res)) except OverflowError: raise ValueError(...)
+   return res
+   (math.ceil(nan) raises ValueError, which is not caught and therefore stays a ValueError) *)
 Definition finish (return_int : bool) (r : float64) : res num :=
-  if return_int then (do z <- ceil_to_Z r; Ok (NInt z)) else Ok (NFloat r).
+  if return_int then
+    match ceil_to_Z r with
+    | Ok z => Ok (NInt z)
+    | Exn OverflowError => Exn ValueError
+    | Exn e => Exn e
+    end
+  else Ok (NFloat r).
 
 Definition string_to_bytes (text unit_system : str) (return_int : bool) : res num :=
   match lookup unit_system unit_system_info with
   | None => Exn ValueError                                   (* KeyError caught and re-raised *)
   | Some (base, reg_ex) =>
-    match re_match reg_ex text with
+    match rz_match reg_ex text with
     | None => Exn ValueError
     | Some (_, g) =>
       match group_text text g 1 with
